@@ -235,6 +235,30 @@ def run(ctx):
             ctx.counters['chk:refusal'] += 1
             if ctx.check(o.raised, 'refusal:ellipse-channel-count-accepted', cid, channels=bad):
                 ctx.refusal('ellipse-channels:' + type(o.exc).__name__)
+        # ---- history: the caller edits its own container in place between two identical gate calls (each call is judged in
+        # situ against the predicate, on the values the container holds at that moment)
+        if N >= 2 and D >= 2 and rng.random() < 0.5:
+            e2 = data.copy()
+            chh = chform([0, 1])
+            fin_ = np.asarray(e2)[:, :2].astype(float)
+            fin_ = fin_[np.all(np.isfinite(fin_), axis=1)]
+            if not len(fin_):
+                continue
+            lim = float(np.median(fin_[:, 0]))
+            cen = [float(np.mean(fin_[:, j])) for j in (0, 1)]
+            calls = [lambda: G.high_low(e2, chh, lim + 1.0, None, True), lambda: G.start_end(e2, 1, 0, True),
+                     lambda: G.ellipse(e2, chh, cen, 50.0, 30.0, 0.3, False, True)]
+            call_ = calls[int(rng.integers(len(calls)))]
+            with np.errstate(all='ignore'):
+                o1 = core.attempt(call_)
+                etag = zoo.edit_in_place(rng, e2)
+                o2 = core.attempt(call_)
+                saved, e2 = e2, e2.copy()
+                o3 = core.attempt(call_)
+                e2 = saved
+            ctx.counters['chk:history:edit-in-place'] += 1
+            if not o2.raised and not o3.raised:
+                ctx.check(np.array_equal(o2.value.mask, o3.value.mask), 'history:answer-of-earlier-values', cid, edit=etag, kind=kind)
     # the repository's own tests as a workload under the same monitors (their assertions are not the oracle)
     from rv import suite_workload
     suite_workload.run_repo_suite(ctx, mon, modules=('test_gate.py',))
